@@ -1089,6 +1089,8 @@ def shrink(fclones, hdir, bindir, steps, base, budget=24):
     while changed and budget > 0:
         changed = False
         for i in range(len(cur) - 1):           # merge step i into step i+1 (drops run i)
+            if any(e.get("mt_class") == "returns_2_back" for e in cur[i + 1]["edits"]):
+                continue                        # run i is what re-hashes the touched state: without it the history is KC4
             cand = cur[:i] + [{"edits": cur[i]["edits"] + cur[i + 1]["edits"], "run": cur[i + 1]["run"]}] + cur[i + 2:]
             budget -= 1
             j, _, _ = cli_exec(fclones, hdir, bindir, cand, base)
